@@ -1,7 +1,8 @@
 """C07 — linear least-squares solver returns the minimiser of the current problem only (DESIGN.md section 6, C07).
 
 Generator: problem SEQUENCES on one solver object (growing, shrinking, equal and square sizes; stale rows written
-beyond the current data size; weights; affine preconditioners; estimate-size changes), float and double.
+beyond the current data size; weights; affine preconditioners; estimate-size changes up and down on the live object,
+with and without a following reallocation), float and double.
 Oracle (property probe on the implementation's outputs, all judged here from the op text alone):
   * the returned x equals A*x_ls + b, x_ls = least-squares solution of rows 0..n-1 of the CURRENT problem computed
     independently by Householder QR (so: minimiser, preconditioner, history independence in one check),
@@ -24,8 +25,8 @@ TRUSTED = ['Eigen JacobiSVD / LDLT are parameters of the model with stated contr
            'Lean Float implementations (cyclic Jacobi, LDL^T) and all solver outputs are compared within a cond^2-scaled tolerance',
            'the probe judges the C++ outputs against an independent Householder-QR solution computed in Python doubles']
 ASSUMPTIONS = ['theorems are over the reals (no rounding); float/double behaviour is covered by the correspondence check and the probe only',
-               'contents of a reallocated buffer are unspecified (quantified in the theorems, NaN in the driver); every generated '
-               'problem rewrites rows < n after a growth, as every caller in /repo does',
+               'contents of a reallocated buffer (setDataSize growth, setEstimateSize with a different size) are unspecified (quantified in '
+               'the theorems, NaN in the driver); every generated problem rewrites rows < n afterwards, as every caller in /repo does',
                'the absolute `> epsilon` singular-value cut of estimateUsingSVD makes problems with sigma_min(J)^2 <= epsilon a separate '
                'matter (DESIGN C07): they are generated for the correspondence only and counted as svd_cut_outside_domain by the probe',
                'float problems are generated with cond(J) <= 30, double with cond(J) <= 1e6 (normal equations square the condition number)']
@@ -144,6 +145,11 @@ class Shadow:
             self.sc = [False] * n
 
     def set_est(self, e):
+        # setEstimateSize reshapes J_ to Y_.rows() x e: contents unspecified when the column count changes (reallocation),
+        # untouched when it does not; Y_, W_ keep their contents
+        if self.cap > 0 and e != self.jcols:
+            self.rows = [None if r is None else ([None] * e, r[1]) for r in self.rows]
+        self.jcols = e
         self.est = e
         self.A = [[1.0 if i == j else 0.0 for j in range(e)] for i in range(e)]
         self.b = [0.0] * e
@@ -161,19 +167,13 @@ class Shadow:
 
     def row(self, i, vals):
         e = self.est
-        old = self.rows[i]
         self.sc[i] = False
-        if self.jcols == e:
-            self.rows[i] = (list(vals[:e]), vals[e])
-        else:  # wider buffer: columns >= est keep their old content
-            base = list(old[0]) if old is not None else [None] * self.jcols
-            base[:e] = vals[:e]
-            self.rows[i] = (base, vals[e])
+        self.rows[i] = (list(vals[:e]), vals[e])
 
     def current(self, weighted=False):
         """(rows, ys) of the current problem, or None when some needed entry is unspecified"""
         e, n = self.est, self.n
-        if e == 0 or e > self.jcols and n > 0:
+        if e == 0:
             return None
         R, Yv = [], []
         for i in range(n):
@@ -457,18 +457,18 @@ def _sequence(rng, T, tier, idx):
     meta = {'T': T, 'e': e, 'pattern': pattern}
     cur_rows = cur_ys = None
     for p in range(nprob):
-        if rng.chance(0.12):
-            # estimate-size change on the live object: smaller (uses the first columns of the wider buffer) or larger
-            # (only legal together with a reallocation, forced below)
-            e2 = rng.int(1, 8)
+        est_changed = False
+        if p > 0 and rng.chance(0.25):
+            # estimate-size change on the LIVE object, up or down, with no reallocation forced behind it: setEstimateSize itself
+            # reshapes the design matrix (repair 186525a); the rows are rewritten afterwards, as every caller does
+            e2 = rng.choice([rng.int(1, 8), min(8, e + rng.int(1, 3)), max(1, e - rng.int(1, 3)), e])
             lines.append('ls.est %d' % e2)
-            if e2 > e:
-                force_grow = True
-            else:
-                force_grow = False
+            if e2 == e and cur_rows is not None and rng.chance(0.7):
+                # same size: the buffers are untouched, only the preconditioner and inverseJtJ_ are reset
+                lines += [rng.choice(['ls.svd', 'ls.chol']), 'ls.cov ' + tok(_rnd(T, 1.0))] if rng.chance(0.5) else ['ls.cov ' + tok(_rnd(T, 1.0)), 'ls.svd']
+            est_changed = e2 != e
             e = e2
-        else:
-            force_grow = False
+        force_grow = False
         if pattern == 'shrink':
             n = big if p == 0 else rng.int(e, max(e, big // (p + 1)))
         elif pattern == 'grow':
@@ -487,7 +487,7 @@ def _sequence(rng, T, tier, idx):
         rows, ys = _problem(rng, T, e, n, kind)
         # every caller rewrites rows < n; on a non-growing resize we sometimes keep part of the previous rows
         # (they are specified, so they are part of the current problem)
-        if (not grew) and cur_rows is not None and len(cur_rows[0]) == e and rng.chance(0.2) and not force_grow:
+        if (not grew) and cur_rows is not None and len(cur_rows[0]) == e and rng.chance(0.2) and not est_changed:
             keep = rng.int(0, min(n, len(cur_rows)) // 2)
             idx_w = list(range(keep, n))
         else:
@@ -574,13 +574,24 @@ def _boundary(rng, T, idx):
         lines.append('ls.size %d' % n)
         _write_rows(lines, tok, rows4, ys4, range(n))
         lines += ['ls.pre1 ' + ' '.join(tok(1.0 if i == j else 0.0) for i in range(e) for j in range(e)), 'ls.svd']
+    # estimate-size change on the live object with NO reallocation behind it (the repaired hole): up, then down
+    n = rng.int(e + 2, 12)
+    r5, y5 = _problem(rng, T, e, n, 'plain')
+    lines.append('ls.size %d' % n)
+    _write_rows(lines, tok, r5, y5, range(n))
+    lines.append('ls.svd')
+    for e2 in (e + rng.int(1, 2), max(1, e - 1)):
+        lines += ['ls.est %d' % e2, 'ls.size %d' % n]
+        r6, y6 = _problem(rng, T, e2, n, 'plain')
+        _write_rows(lines, tok, r6, y6, range(n))
+        lines += ['ls.svd', 'ls.chol', 'ls.peek %d' % rng.int(0, n - 1)]
     return {'name': 'boundary-%s-%d' % (T, idx), 'lines': lines, 'meta': {'T': T, 'e': e, 'boundary': True}}
 
 
 def _malformed():
     lines = ['ls.size 3', 'ls.new d 3', 'ls.row 0 d0 d0 d0 d0', 'ls.size 2', 'ls.row 2 d0 d0 d0 d0', 'ls.row 0 d0 d0 d0',
-             'ls.row 0 s0 s0 s0 s0', 'ls.w 2 d0', 'ls.pre d0', 'ls.est 0', 'ls.est 5', 'ls.row 0 d0 d0 d0 d0 d0 d0', 'ls.svd',
-             'ls.peek 0', 'ls.new q 3', 'ls.new d 0', 'ls.frob', 'ls.new d', 'ls.size 3', 'ls.svd', 'ls.cov d0']
+             'ls.row 0 s0 s0 s0 s0', 'ls.w 2 d0', 'ls.pre d0', 'ls.est 0', 'ls.est 5', 'ls.row 0 d0 d0 d0 d0', 'ls.peek 7',
+             'ls.w 9 d0', 'ls.new q 3', 'ls.new d 0', 'ls.frob', 'ls.new d', 'ls.size 3', 'ls.svd', 'ls.cov d0']
     return {'name': 'malformed', 'lines': lines, 'meta': {'malformed': True}}
 
 
@@ -621,6 +632,9 @@ def oracle(case, out, stats):
 
         def bad(kind, detail, **fields):
             fails.append({'kind': kind, 'detail': '%s (line %d: %s) -> %s : %s' % (case.get('name'), li, line[:80], o[:200], detail), 'fields': fields})
+        if o.startswith('shape-mismatch'):
+            bad('design-matrix-not-resized', 'the design matrix does not have estimateSize_ columns: using it would read/write outside J_', shape=o)
+            break
         if o in ('abort', 'hang', 'exception', 'skipped', 'bad-op'):
             bad('outcome-' + o, 'unexpected outcome')
             break
